@@ -159,3 +159,31 @@ Definition ws_reply_wfb (r : list Z) : bool :=
       end
   | None => false
   end.
+
+(* C05: the sensor a step writes, if it completes a write command (`w <id> <value> <date>` LF with
+   the value token known to the oracle); every other step is not a write *)
+Definition ws_written (d : wsdev) (t b : Z) : option (list Z) :=
+  let cur := match buf_get t (bufs d) with Some v => v | None => [] end in
+  let m := cur ++ [b] in
+  match m with
+  | [_] | [_; _] => None
+  | _ => if b =? LF then
+           match split_ws (strip m) with
+           | [a0; a1; _; _] => if zlist_eqb a0 [W_CHAR] then Some a1 else None
+           | _ => None
+           end
+         else None
+  end.
+
+(* a history (any threads, any bytes) in which no step completes a write to sensor [id] *)
+Fixpoint ws_no_write (fmt : list Z -> option (list Z)) (id : list Z) (d : wsdev) (ops : list (Z * Z)) : Prop :=
+  match ops with
+  | [] => True
+  | (t, b) :: r => ws_written d t b <> Some id /\ ws_no_write fmt id (fst (ws_step fmt d t b)) r
+  end.
+
+(* C04, as a proposition: the error string, or the five tags in order around four fields *)
+Definition ws_row_text (id v dt info : list Z) : list Z :=
+  WS_OPEN ++ id ++ WS_VAL ++ v ++ WS_DATE ++ dt ++ WS_INFO ++ info ++ WS_CLOSE.
+Definition ws_reply_wf (r : list Z) : Prop :=
+  r = WS_ERR \/ exists id v dt info, r = ws_row_text id v dt info.
